@@ -10,8 +10,9 @@ Driver ops for the whole pipeline (property C01).
   `{"err": cls, "stage": "parse" | "gen" | "reparse" | "regen", "pos"?: …}`
   (`text2` = the generated text, `equal` = `c == parse(text2)`, `stable` = generating from the re-parsed circuit
   gives `text2` again).
-* `round_trip_layers`: same input → `{"printable": bool, "A": bool, "B": bool, "C": bool}` | `{"err": …}`: the three
-  layer statements of C01 (`Pipeline.layers`) evaluated in the model on the circuit the text parses to.
+* `round_trip_layers`: same input → `{"printable": bool, "A": bool, "B": bool, "C": bool, "Cexact": bool}` | `{"err": …}`:
+  the three layer statements of C01 (`Pipeline.layers`) evaluated in the model on the circuit the text parses to;
+  `Cexact`: building `unbuild c` gives back exactly `c` (what `C01_rebuild_canonical` proves for ordered programs).
 -/
 namespace Jaqal.Pipeline
 open Lean Jaqal.Builder
@@ -56,7 +57,15 @@ def opLayers (j : Json) : Jaqal.R Json := do
   let cfg ← cfgOfJson j
   match layers cfg s with
   | .error e => pure (jobj (errFields e))
-  | .ok l => pure (jobj [("printable", .bool l.printable), ("A", .bool l.layerA), ("B", .bool l.layerB), ("C", .bool l.layerC)])
+  | .ok l =>
+    -- `C01_rebuild_canonical` says more than (C): the rebuilt circuit IS the original one (compared as JSON dumps)
+    let exact := match parseProgram cfg s with
+      | .ok c => (match parseBuild cfg (unbuild c) with
+        | .ok c' => c'.toJson.compress == c.toJson.compress
+        | .error _ => false)
+      | .error _ => false
+    pure (jobj [("printable", .bool l.printable), ("A", .bool l.layerA), ("B", .bool l.layerB), ("C", .bool l.layerC),
+      ("Cexact", .bool exact)])
 
 def ops : List (String × (Json → Jaqal.R Json)) :=
   [("parse_program", opParseProgram), ("round_trip", opRoundTrip), ("round_trip_layers", opLayers)]
